@@ -212,24 +212,43 @@ func VerifC12Step() {
 // between polls.
 func VerifC12Blocking() {
 	rw := &RWMutex{}
-	g0, g1 := rw.Guard(), rw.Guard()
+	g0, g1, g2 := rw.Guard(), rw.Guard(), rw.Guard()
 	excl := rt.Choose("blocking.excl", 2) == 0 // which variant the actor calls
 	holder := rt.Choose("holder.state", 3)     // other owner: unlocked / shared / exclusive
 	switch RWMutexState(holder) {
 	case RWMutexStateShared:
 		g1.TryRLock()
+		if rt.Choose("second.reader", 2) == 1 {
+			g2.TryRLock()
+		}
 	case RWMutexStateExclusive:
 		g1.TryLock()
 	}
-	blockedAtStart := (excl && holder != 0) || (!excl && RWMutexState(holder) == RWMutexStateExclusive)
-	released := false
-	releasedAtTick := -1
+	// the lock is available to the actor when nobody else holds it (exclusive request) or when nobody
+	// else holds it exclusively (shared request)
+	available := func() bool {
+		if excl {
+			return g1.State() == RWMutexStateUnlocked && g2.State() == RWMutexStateUnlocked
+		}
+		return g1.State() != RWMutexStateExclusive && g2.State() != RWMutexStateExclusive
+	}
+	blockedAtStart := !available()
+	availableAtTick := -1
 	rt.Ticks = 0
 	rt.OnTick = func() {
-		if !released && rt.Bool("env.release") {
+		// the other owners release, or the exclusive holder downgrades to shared and keeps holding
+		switch rt.Choose("env.action", 4) {
+		case 1:
 			g1.Unlock()
-			released = true
-			releasedAtTick = rt.Ticks
+		case 2:
+			g2.Unlock()
+		case 3:
+			if g1.State() == RWMutexStateExclusive {
+				rt.Check(g1.TryRLock(), "harness: downgrade")
+			}
+		}
+		if availableAtTick < 0 && available() {
+			availableAtTick = rt.Ticks
 		}
 	}
 	polls := 3
@@ -251,9 +270,9 @@ func VerifC12Blocking() {
 		} else {
 			rt.Check(g0.state == RWMutexStateShared && rw.excl == nil, "RLock returned nil: shared")
 		}
-		rt.Check(!blockedAtStart || released, "nil only after the lock became available")
+		rt.Check(!blockedAtStart || availableAtTick >= 0, "nil only after the lock became available")
 		if blockedAtStart {
-			rt.Check(rt.Ticks == releasedAtTick, "returns at the first poll at which the lock is available")
+			rt.Check(rt.Ticks == availableAtTick, "returns at the first poll at which the lock is available")
 		} else {
 			rt.Check(rt.Ticks == 0, "free lock: returns without waiting")
 		}
@@ -263,5 +282,6 @@ func VerifC12Blocking() {
 		rt.Check(ctx.Err() != nil, "error only when the context is done")
 		rt.Check(g0.state == RWMutexStateUnlocked, "cancelled wait leaves the guard unlocked")
 		rt.Check(blockedAtStart, "a free lock is acquired without consulting the context")
+		rt.Check(availableAtTick < 0 || !available() || availableAtTick == rt.Ticks, "a wait is only cancelled while the lock is unavailable (or in the very poll it became available)")
 	}
 }
